@@ -38,6 +38,8 @@ pub fn tables() -> Vec<(&'static str, vsrc::NativeFn)> {
     t.extend(c12::table());
     t.extend(c17::table());
     t.extend(c20::table());
+    t.extend(c20::visitor::table());
+    t.extend(c20::field::table());
     t.extend(c21::table());
     t.extend(c22::table());
     t.extend(c32::table());
